@@ -3,20 +3,23 @@ import json
 
 CLAIMS = {
  "C01": dict(cat="other", design="7/C01",
-   text=("Deductive: every BinaryEncoder/BinaryDecoder method, the type writers, write_data, the readers and skips and "
-         "read_data are under contract against the specification functions ENC (writer side) and BYTES/VALUE over all "
-         "encoding derivations (reader side); all obligations discharged by z3 for all schemas, data and iterations. "
-         "Not deductive: write_union's branch search (assumed contract) and the glue ENC == BYTES(WIT) / VALUE(WIT) == NORM "
-         "between the two spec views, which the bounded stand-in checks on enumerated schemas x boundary data; hence 'other', not 'proof'."),
+   text=("Deductive: every BinaryEncoder/BinaryDecoder method, the type writers incl. write_union (branch search against the "
+         "statement's selection rule SEL), write_data, the readers and skips and read_data are under contract against the "
+         "specification functions ENC (writer side) and BYTES/VALUE over all encoding derivations (reader side); all obligations "
+         "discharged by z3 for all schemas, data and iterations; no assumed contract on repository functions remains on this path. "
+         "Not deductive: the glue ENC == BYTES(WIT) / VALUE(WIT) == NORM between the two spec views, which the bounded stand-in "
+         "checks on enumerated schemas x boundary data; hence 'other', not 'proof'."),
    note=("Trusted: z3, the pyvc translator and stream model, struct/UTF-8 external contracts, float axioms, len<=2^63-1; "
-         "write_union contract assumed; schemas without logical types; parse_schema not involved (parsed schemas are inputs); "
-         "Cython mirrors unverified."),
+         "domain: parsed schemas without logical types, no Avro keyword used as a type name (NS_CLEAN), field defaults valid as data "
+         "(DEFAULTS_DATA; outside it KF12); parse_schema not involved (parsed schemas are inputs); Cython mirrors unverified."),
    technique="contract-based deductive verification (AST->VC, z3) + bounded stand-in for the spec-level round-trip glue"),
  "C02": dict(cat="other", design="7/C02",
    text=("Deductive: encoder primitives and composite writers append exactly ENC(schema, datum) -- the specification's "
          "encoding written independently from the Avro document -- for all conforming data; write_fixed raises on wrong "
-         "length before writing. write_union (branch search) is an assumed contract checked by the bounded stand-in, "
-         "so the level is 'other'."),
+         "length before writing; write_union writes the index of the branch the statement's rule selects (SEL: hinted branch, first "
+         "conforming non-record branch with float deferring to a later double, else the record sharing most field names, first on ties) "
+         "followed by the value. All obligations discharged. ENC's agreement with the reader-side view (BYTES of a derivation) is "
+         "only bounded, so the level is 'other'."),
    note="Trusted: as C01. One known finding (KF13) is excluded by predicate; any other violation of that obligation is still reported.",
    technique="contract-based deductive verification (AST->VC, z3); bounded differential check against the executable spec"),
  "C03": dict(cat="other", design="7/C03",
@@ -140,22 +143,38 @@ PENDING = ["C04", "C05", "C06", "C07", "C08", "C09", "C10", "C11", "C12", "C13",
 
 
 OVERRIDES = {
- "C04": dict(cat="other", design="0.3, 7/C04",
-   text=("Deductive (writer side): the codec block writers (null, deflate, bzip2, xz) append exactly the block payload the "
-         "layout specification prescribes (length prefix + codec payload, codecs as assumed externals with inverse axioms); "
-         "Writer.dump / write / flush are specified by what they append to the user's stream and what they leave in the pending "
-         "buffer (a block is emitted when the buffer reaches the sync interval; flush emits iff the buffer holds bytes OR records), "
-         "all obligations discharged for every codec entry of BLOCK_WRITERS usable in this sandbox. Not deductive: header, reader "
-         "side, schema self-description and the end-to-end round trip, which the bounded stand-in checks; hence 'other'."),
-   note="Trusted: zlib/bz2/lzma contracts and inverse axioms, stream model, write_data contract from C01 (write_union assumed); snappy/zstandard/lz4 not importable here and not considered.",
-   technique="contract-based deductive verification of the writer-side functions; bounded container round trips against an independent parser"),
- "C06": dict(cat="other", design="0.3, 7/C06",
+ "C04": dict(cat="other", design="0.3, 0.9, 7/C04",
+   text=("Deductive, writer side: the codec block writers (null, deflate, bzip2, xz) append exactly the block payload the layout "
+         "specification prescribes; Writer.dump / write / flush are specified by what they append to the user's stream and what they "
+         "leave in the pending buffer. Deductive, reader side: skip_sync, the four codec block readers (inverse of the writers' payload, "
+         "codecs as assumed externals with pair axioms) and the record iterator _iter_avro_records: for EVERY layout-valid sequence of "
+         "data blocks FILE_BLOCKS(codec, schema, blocks, sync) -- any number of blocks, any counts incl. 0, any partition inside the "
+         "records -- it yields exactly the records the blocks denote, in order, and stops at end of file. Not deductive: header "
+         "(write_header / _read_header with json + parse_schema), Writer.__init__, the composition 'what the Writer emitted is such a "
+         "block sequence' and schema self-description -- bounded stand-in; hence 'other'."),
+   note=("Trusted: zlib/bz2/lzma contracts and pair axioms, stream model, read_data / write_data contracts (verified under C01-C03); "
+         "snappy/zstandard/lz4 not importable here and not considered; reader_schema None, no logical types."),
+   technique="contract-based deductive verification of writer- and reader-side container functions incl. a generator with nested loops; bounded container round trips against an independent parser"),
+ "C05": dict(cat="other", design="0.3, 0.9, 7/C05",
+   text=("Deductive: the reader accepts every layout-valid block sequence from any writer: _iter_avro_records yields exactly the "
+         "records denoted by FILE_BLOCKS for any number of blocks, empty blocks included; the block reader _iter_avro_blocks yields one "
+         "Block per data block whose (count, offset, size, payload) are BLOCK_VIEWS -- offsets and sizes tile the file from the end of "
+         "the header to the end of the file (offset_k = start + sum of earlier sizes, final position = file length) and the counts are "
+         "the blocks' counts; Block.__iter__ yields the block's records; the codec block readers invert the block writers; the writer "
+         "side (block writers, Writer.dump/flush) emits BLOCK_BYTES. Not deductive: magic / metadata map / is_avro, header parsing "
+         "(chunked metadata map, codec key absent) and the Java fixtures -- bounded stand-in with an independent parser and writer."),
+   note=("Trusted: codec externals and pair axioms, stream model (tell/seek), read_data contract (verified under C03). "
+         "reader_schema None; schemas without logical types."),
+   technique="contract-based deductive verification of the container iterators against a layout specification (ghost file derivations, loop ghosts); bounded differential check with an independent layout parser / writer"),
+ "C06": dict(cat="other", design="0.3, 0.9, 7/C06",
    text=("Deductive: for every BinaryDecoder method, (a) on valid input exactly the encoding is consumed, (b) with no assumption "
-         "on the input a read that comes back short makes the method raise (eof_hit unchanged on every normal return). The container "
-         "iterators and the prefix conclusion (paper lemma L-prefix-file) are exercised by the bounded stand-in: every cut offset, "
-         "values larger than 64 KiB, every sync-marker byte."),
-   note="Trusted: stream model; container iterators _iter_avro_records/_iter_avro_blocks not under contract.",
-   technique="contract-based deductive verification of the decoder's short-read behaviour; bounded truncation / corruption enumeration"),
+         "on the input a read that comes back short makes the method raise (eof_hit unchanged on every normal return); skip_sync "
+         "consumes the 16-byte marker or raises ValueError for ANY other 16 bytes, a truncated marker or end of file -- every "
+         "alteration of a block's trailing marker is reported when the block is reached. The prefix conclusion for whole files "
+         "(paper lemma L-prefix-file) is exercised by the bounded stand-in: every cut offset, values larger than 64 KiB, every "
+         "sync-marker byte."),
+   note="Trusted: stream model; the container iterators are verified for layout-valid input (C05), their behaviour on truncated input only bounded.",
+   technique="contract-based deductive verification of the decoder's short-read behaviour and the sync check; bounded truncation / corruption enumeration"),
  "C07": dict(cat="other", design="0.3, 7/C07",
    text=("Deductive: Writer.dump / write / flush / write_block and the codec block writers under contract: every operation appends "
          "at the append position only (so the header is never touched), write_block first emits the pending block, and -- behaviour "
@@ -164,12 +183,15 @@ OVERRIDES = {
    note="Trusted: write_data[anydatum] (append-only also when raising) is an assumed contract; stream model; codecs.",
    technique="contract-based deductive verification of each Writer operation incl. exceptional postconditions; bounded history replay"),
  "C09": dict(cat="other", design="0.3, 7/C09",
-   text=("Deductive: frame obligations (provenance) for every store site of the functions taking part in branch selection and naming "
-         "-- the choice can depend on schema, datum and options only, never on module-level or default-argument state. The selection "
-         "rule itself (first conforming non-record branch, float->double deferral, most shared fields) and the read/rewrite closure are "
-         "checked by the bounded stand-in against the selection oracle."),
-   note="Trusted: provenance rules and declarations (contracts/_frames.py); write_union not functionally verified.",
-   technique="frame obligations by provenance analysis; bounded differential check against an executable selection oracle"),
+   text=("Deductive: write_union is verified against SEL, the statement's selection rule written as specification functions "
+         "(HINTED for (name, value) tuples, FIRST_NONREC / DEFER_DOUBLE / BEST_REC otherwise): for every union, datum and option "
+         "set the index written is SEL's, a hint naming no branch raises ValueError with nothing written (behaviour 'nohint'), and "
+         "the '-type' hint is honoured through the validators' contracts (VALID / HINT_OK). Frame obligations (provenance) for every "
+         "store site of the functions involved: the choice depends on schema, datum and options only. Not deductive: the read side "
+         "((name, value) pairs reported for named branches and the re-write closure) -- bounded stand-in; hence 'other'."),
+   note=("Trusted: provenance rules and declarations (contracts/_frames.py); z3; domain as C01 (no logical types, DEFAULTS_DATA, NS_CLEAN); "
+         "'record branch' means type \"record\" (an \"error\" branch is treated by the writer like a non-record branch)."),
+   technique="contract-based deductive verification of the branch search (answer-preserving loop invariants) + frame obligations; bounded differential check against an independent selection oracle"),
  "C10": dict(cat="other", design="0.3, 7/C10",
    text=("Deductive: every validator of fastavro/_validation_py.py (_validate_null ... _validate_union and the dispatcher _validate) "
          "is under contract against VALID, the statement's predicate written clause by clause (strict mode, '-type' and (name, value) "
